@@ -29,6 +29,7 @@ import (
 	"os"
 	"regexp"
 	"runtime"
+	"runtime/pprof"
 	"sort"
 	"strings"
 	"sync"
@@ -467,8 +468,8 @@ func contains(s []string, x string) bool {
 	return false
 }
 
-func dumpFile(fd protoreflect.FileDescriptor, runtimeView bool) attrs {
-	a := attrs{}
+func dumpFile(a attrs, fd protoreflect.FileDescriptor, runtimeView bool) attrs {
+	clear(a)
 	a.set("<file>", "syntax", fd.Syntax())
 	a.set("<file>", "package", fd.Package())
 	a.set("<file>", "path", fd.Path())
@@ -510,9 +511,10 @@ func syntaxName(s string) string {
 	return protoreflect.Editions.String()
 }
 
-func expected(c *tcase) (attrs, map[string]string) {
-	a := attrs{}
-	elems := map[string]string{} // fqn -> element kind, the exact set of messages / enums / fields / oneofs the file must contain
+func expected(a attrs, elems map[string]string, c *tcase) (attrs, map[string]string) {
+	// elems: fqn -> element kind, the exact set of messages / enums / fields / oneofs / values the file must contain
+	clear(a)
+	clear(elems)
 	syn := syntaxName(c.Syntax)
 	a.set("<file>", "syntax", syn)
 	a.set("<file>", "edition", c.Edition)
@@ -668,7 +670,20 @@ func attrKind(key string, maps ...attrs) (string, string) {
 	return "elem", attr
 }
 
-func checkCase(c *tcase, corrupt string) (out outcome) {
+// scratch holds one worker's reusable maps (allocation dominated the profile)
+type scratch struct {
+	l, r, s attrs
+	elems   map[string]string
+	keys    map[string]bool
+	sorted  []string
+}
+
+func newScratch() *scratch {
+	return &scratch{l: make(attrs, 512), r: make(attrs, 512), s: make(attrs, 512), elems: make(map[string]string, 64),
+		keys: make(map[string]bool, 1024)}
+}
+
+func checkCase(sc *scratch, c *tcase, corrupt string) (out outcome) {
 	key := c.key()
 	rep := func(class, detail string) {
 		out.mm = append(out.mm, mismatch{Class: class, Key: key, Detail: detail})
@@ -701,9 +716,9 @@ func checkCase(c *tcase, corrupt string) (out outcome) {
 		rep("runtime-rejects:"+strings.Join(strings.Fields(quoted.ReplaceAllString(msg, "")), "-"), err.Error()+"\n"+src)
 		return
 	}
-	L := dumpFile(f, false)
-	R := dumpFile(rt, true)
-	S, elems := expected(c)
+	L := dumpFile(sc.l, f, false)
+	R := dumpFile(sc.r, rt, true)
+	S, elems := expected(sc.s, sc.elems, c)
 	if corrupt != "" {
 		// binding self-test: flip one expectation
 		for k, v := range S {
@@ -734,7 +749,8 @@ func checkCase(c *tcase, corrupt string) (out outcome) {
 			}
 		}
 	}
-	keys := map[string]bool{}
+	keys := sc.keys
+	clear(keys)
 	for k := range L {
 		keys[k] = true
 	}
@@ -744,11 +760,12 @@ func checkCase(c *tcase, corrupt string) (out outcome) {
 	for k := range S {
 		keys[k] = true
 	}
-	sorted := make([]string, 0, len(keys))
+	sorted := sc.sorted[:0]
 	for k := range keys {
 		sorted = append(sorted, k)
 	}
 	sort.Strings(sorted)
+	sc.sorted = sorted
 	for _, k := range sorted {
 		l, lok := L[k]
 		r, rok := R[k]
@@ -806,7 +823,15 @@ func main() {
 	workers := flag.Int("workers", 6, "parallel compilations")
 	corrupt := flag.String("corrupt", "", "self-test: flip the spec's expectation for this attribute in every case")
 	dump := flag.Bool("dump", false, "print the rendered source of every case to stderr")
+	cpuprofile := flag.String("cpuprofile", "", "write a CPU profile")
 	flag.Parse()
+	if *cpuprofile != "" {
+		pf, err := os.Create(*cpuprofile)
+		if err == nil {
+			_ = pprof.StartCPUProfile(pf)
+			defer pprof.StopCPUProfile()
+		}
+	}
 
 	in := bufio.NewScanner(os.Stdin)
 	in.Buffer(make([]byte, 1<<20), 1<<26)
@@ -826,6 +851,7 @@ func main() {
 		wg.Add(1)
 		go func() {
 			defer wg.Done()
+			sc := newScratch()
 			for j := range lines {
 				line := j.b
 				var c tcase
@@ -836,7 +862,7 @@ func main() {
 				if *dump {
 					fmt.Fprintf(os.Stderr, "---- %s\n%s\n", c.key(), render(&c))
 				}
-				o := checkCase(&c, *corrupt)
+				o := checkCase(sc, &c, *corrupt)
 				atomic.AddInt64(&ncases, 1)
 				atomic.AddInt64(&nchecks, int64(o.checks))
 				if o.harness {
